@@ -68,7 +68,10 @@ impl TypeChecker {
         }
 
         // Enforce required fields (those without defaults) are present.
-        for (field_name, info) in fields {
+        // Sorted by name so diagnostics come out in the same order on every run.
+        let mut required_fields: Vec<_> = fields.iter().collect();
+        required_fields.sort_by(|a, b| a.0.cmp(b.0));
+        for (field_name, info) in required_fields {
             if !info.has_default && !provided.contains_key(field_name.as_str()) {
                 self.errors.push(errors::missing_required_constructor_field(
                     type_name, field_name, call_span,
